@@ -14,6 +14,11 @@ Streams
                   - the real get_name request sequence replayed through Lean `number`
                   - the real project lists / search-index order / src copies compared with
                     Lean `site` on the same abstract project and the same enumeration order
+                  - the include file every `include '..'` line is resolved to (several include
+                    directories holding equally named files)                        vs  Lean `resolveIncludeTree`
+                  - the components / type-bound procedures every derived type shows after
+                    `FortranType.correlate` (inheritance chains, overriding, private and generic
+                    bindings)                                                      vs  Lean `chainBindings` / `chainComps`
 """
 from __future__ import annotations
 
@@ -23,6 +28,7 @@ import json
 import os
 import random
 import shutil
+import subprocess
 import time
 from pathlib import Path
 
@@ -39,6 +45,8 @@ F_PAR = "C12-parallel-graph-dir-crash"
 F_RACE = "C12-parallel-graph-file-race"
 F_CASE = "C12-case-collision-hash-order"
 F_TOPO = "C12-numbering-toposort-set-order"
+F_INHBY = "C12-inheritedby-children-set-order"
+F_GENCOPY = "C12-numbering-generic-copies-set-order"
 
 
 # --------------------------------------------------------------------------
@@ -51,9 +59,16 @@ class Gen:
     others draw from small pools so that the known order-dependent classes occur."""
 
     def __init__(self, rng: random.Random, clean: bool, nfiles: int, multi_use: bool | None = None,
-                 case_variants: bool = False):
+                 case_variants: bool = False, includes: bool = False):
         self.rng = rng
         self.case_variants = case_variants
+        # include directories (configured order, deliberately not alphabetical) holding equally named files
+        self.inc_dirs: list[str] = []
+        self.inc_files: dict[str, dict[str, list]] = {}   # include name -> {directory: [(variable, value)]}
+        self.own_inc: dict[tuple, list] = {}               # (directory of the source file, name) -> variant
+        if includes:
+            self.inc_dirs = [f"inc/d{i}" for i in range(rng.choice([3, 4, 4]))]
+            rng.shuffle(self.inc_dirs)
         self.clean = clean
         self.multi = (not clean) if multi_use is None else multi_use
         self.nfiles = nfiles
@@ -92,19 +107,58 @@ class Gen:
             f = {"path": path, "units": [], "top": []}
             nunits = rng.choice([1, 1, 2])
             for _ in range(nunits):
-                self.add_unit(f, self.module())
+                u = self.module()
+                self.add_includes(path, u)
+                self.add_unit(f, u)
             if self.modnames and rng.random() < 0.45:
                 # several submodules of one module: they sit on one level of the dependency order
                 parent = rng.choice(self.modnames)
                 if self.modnames.count(parent) == 1:
                     for _ in range(rng.choice([2, 2, 3])):
                         self.add_unit(f, {"kind": "submodule", "parent": parent, "name": self.name("sm", ["sub_a", "sub_b"]),
-                                          "uses": [], "vars": [], "types": [], "procs": [], "ifaces": []})
+                                          "uses": [], "vars": [], "types": [], "procs": [], "ifaces": [], "includes": []})
             if rng.random() < 0.4:
                 f["top"].append(self.proc(None, toplevel=True))
             if rng.random() < 0.3:
                 self.add_unit(f, self.program())
             self.files.append(f)
+
+    def add_includes(self, path, u):
+        """`include '<name>'` lines of a module; the file exists in several of the include directories (with
+        different declarations in each), sometimes also next to the source file (that copy wins)"""
+        rng = self.rng
+        if not self.inc_dirs or rng.random() < 0.25:
+            return
+        for _ in range(rng.choice([1, 1, 2])):
+            if self.inc_files and not self.clean and rng.random() < 0.3:
+                name = rng.choice(sorted(self.inc_files))
+            else:
+                name = self.fresh("lim") + ".inc"
+                k = rng.choice([1, 2, 2, 3, len(self.inc_dirs), len(self.inc_dirs)])
+                holders = rng.sample(self.inc_dirs, min(k, len(self.inc_dirs)))
+                same_names = (not self.clean) and rng.random() < 0.5
+                common_vars = [self.varname() for _ in range(rng.choice([1, 2]))]
+                self.inc_files[name] = {}
+                for d in holders:
+                    vs = common_vars if same_names else [self.fresh("iv") for _ in range(rng.choice([1, 2]))]
+                    self.inc_files[name][d] = [(v, rng.randint(1, 99)) for v in dict.fromkeys(vs)]
+            if name in u["includes"]:
+                continue
+            if rng.random() < 0.2:
+                own = (os.path.dirname(path), name)
+                self.own_inc.setdefault(own, [(self.fresh("iv"), rng.randint(100, 199))])
+            u["includes"].append(name)
+
+    def include_variant(self, path, name):
+        """(directory label, declarations) the property-independent reading of `include` prescribes: the
+        directory of the including file first, then the include directories in the order given"""
+        own = (os.path.dirname(path), name)
+        if own in self.own_inc:
+            return "src/" + own[0] if own[0] else "src", self.own_inc[own]
+        for d in self.inc_dirs:
+            if d in self.inc_files[name]:
+                return d, self.inc_files[name][d]
+        raise AssertionError("include file without a holder")
 
     def add_unit(self, f, u):
         """two program units of the same name in one file are not a Fortran program"""
@@ -131,25 +185,36 @@ class Gen:
     def module(self):
         rng = self.rng
         nm = self.name("m", ["mod_a", "mod_b"]) if (not self.clean and rng.random() < 0.08) else self.fresh("m")
-        m = {"kind": "module", "name": nm, "uses": self.uses(), "vars": [], "types": [], "procs": [], "ifaces": []}
+        m = {"kind": "module", "name": nm, "uses": self.uses(), "vars": [], "types": [], "procs": [], "ifaces": [],
+             "includes": []}
         for _ in range(rng.choice([0, 1, 2])):
             m["vars"].append(self.varname())
+
+        def new_type(extends):
+            comps = list(dict.fromkeys(self.varname() for _ in range(rng.choice([1, 2, 3]))))
+            t = {"name": self.name("t", ["point", "node_t", "Point"]), "comps": comps,
+                 "priv_comps": [c for c in comps if rng.random() < 0.15],
+                 "extends": extends, "binds": [], "generics": []}
+            if t["name"].lower() not in {x["name"].lower() for x in m["types"]}:
+                m["types"].append(t)
+
         for _ in range(rng.choice([0, 0, 1, 2])):
-            t = {"name": self.name("t", ["point", "node_t", "Point"]), "comps": [self.varname() for _ in range(rng.choice([1, 2]))],
-                 "extends": None, "bound": None}
+            ext = None
             if self.types and rng.random() < 0.3:
                 cand = [x for x in self.types if x[0] in m["uses"]]
                 if cand:
-                    t["extends"] = rng.choice(cand)[1]
-            if t["name"].lower() not in {x["name"].lower() for x in m["types"]}:
-                m["types"].append(t)
+                    ext = rng.choice(cand)[1]
+            new_type(ext)
+        if m["types"] and rng.random() < 0.6:
+            # derived types of this module's types: siblings (several children of one type) and chains
+            for _ in range(rng.choice([1, 2, 2, 3])):
+                new_type(rng.choice(m["types"])["name"])
         for _ in range(rng.choice([1, 1, 2, 3])):
             p = self.proc(nm)
             if p["name"].lower() not in {x["name"].lower() for x in m["procs"]}:
                 m["procs"].append(p)
         for t in m["types"]:
-            if rng.random() < 0.3 and m["procs"]:
-                t["bound"] = rng.choice(m["procs"])["name"]
+            self.add_bindings(m, t)
         if rng.random() < 0.2 and len(m["procs"]) >= 2:
             gname = self.name("g", ["gen", "init"])
             if gname.lower() not in {x["name"].lower() for x in m["procs"]}:
@@ -160,6 +225,38 @@ class Gen:
         for p in m["procs"]:
             self.procs.append((nm, p["name"]))
         return m
+
+    def add_bindings(self, m, t):
+        """type-bound procedures: several per type (so that their order is visible), private ones, generic
+        ones, and - for a type derived from a type of the same module - overriding of inherited ones"""
+        rng = self.rng
+        if not m["procs"]:
+            return
+        taken = set()
+
+        def add(name, private=False):
+            if name.lower() in taken:
+                return
+            taken.add(name.lower())
+            t["binds"].append({"name": name, "proc": rng.choice(m["procs"])["name"], "private": private})
+
+        parent = next((x for x in m["types"] if t["extends"] and x["name"].lower() == t["extends"].lower()
+                       and x is not t), None)
+        if parent is not None:
+            pb = [b["name"] for b in parent["binds"]]
+            if pb and rng.random() < 0.5:
+                o = rng.choice(pb)
+                add(o.capitalize() if self.case_variants and rng.random() < 0.5 else o)
+        for _ in range(rng.choice([0, 2, 3, 4, 5])):
+            add(self.name("b", ["area", "show", "init", "reset", "scale"]), private=rng.random() < 0.15)
+        if len(t["binds"]) >= 2 and rng.random() < 0.35:
+            gname = None
+            if parent is not None and parent["generics"] and rng.random() < 0.5:
+                gname = parent["generics"][0]["name"]          # merged with the parent's generic binding
+            gname = gname or self.name("g", ["apply", "assign"])
+            if gname.lower() not in taken:
+                taken.add(gname.lower())
+                t["generics"].append({"name": gname, "over": [b["name"] for b in rng.sample(t["binds"], 2)]})
 
     def proc(self, mod, toplevel=False):
         rng = self.rng
@@ -188,7 +285,8 @@ class Gen:
     def program(self):
         rng = self.rng
         pr = {"kind": "program", "name": self.name("main", ["main", "prog"]), "uses": self.uses(),
-              "vars": [self.varname() for _ in range(rng.choice([0, 1]))], "types": [], "procs": [], "ifaces": []}
+              "vars": [self.varname() for _ in range(rng.choice([0, 1]))], "types": [], "procs": [], "ifaces": [],
+              "includes": []}
         pr["calls"] = [rng.choice(self.procs)[1]] if self.procs else []
         if rng.random() < 0.3:
             pr["procs"].append(self.proc(pr["name"]))
@@ -240,6 +338,8 @@ class Gen:
         for x in u["uses"]:
             L.append(f"  use {x}")
         L.append("  implicit none")
+        for name in u.get("includes", []):
+            L.append(f"  include '{name}'")
         for g in u["ifaces"]:
             L.append(f"  interface {g['name']}")
             L.append(f"    module procedure {', '.join(g['procs'])}")
@@ -249,10 +349,15 @@ class Gen:
             L.append(f"  type{ext} :: {t['name']}")
             L.append(f"    !! Type {t['name']}.")
             for c in t["comps"]:
-                L.append(f"    integer :: {c}")
-            if t["bound"]:
+                L.append(f"    integer{', private' if c in t['priv_comps'] else ''} :: {c}")
+            if t["binds"]:
                 L.append("  contains")
-                L.append(f"    procedure, nopass :: {t['bound']}")
+                for b in t["binds"]:
+                    tgt = "" if b["name"] == b["proc"] else f" => {b['proc']}"
+                    L.append(f"    procedure, {'private, ' if b['private'] else ''}nopass :: {b['name']}{tgt}")
+                    L.append(f"      !! binding {b['name']}")
+                for g in t["generics"]:
+                    L.append(f"    generic :: {g['name']} => {', '.join(g['over'])}")
             L.append(f"  end type {t['name']}")
         for v in u["vars"]:
             L.append(f"  integer :: {v} = 0")
@@ -267,7 +372,16 @@ class Gen:
         L.append(f"end {u['kind']} {u['name']}")
         return L
 
+    @staticmethod
+    def render_include(label, variant):
+        L = []
+        for v, val in variant:
+            L.append(f"integer, parameter :: {v} = {val}")
+            L.append(f"  !! {v} as set in {label}")
+        return "\n".join(L) + "\n"
+
     def sources(self):
+        """relative to the source directory; include directories sit next to it (`../inc/..`)"""
         out = {}
         for f in self.files:
             L = []
@@ -278,7 +392,15 @@ class Gen:
                 L += self.render_proc(p, ind="")
                 L.append("")
             out[f["path"]] = "\n".join(L) + "\n"
+        for name, holders in self.inc_files.items():
+            for d, variant in holders.items():
+                out[f"../{d}/{name}"] = self.render_include(d, variant)
+        for (d, name), variant in self.own_inc.items():
+            out[(d + "/" if d else "") + name] = self.render_include("the directory of the source file", variant)
         return out
+
+    def source_paths(self):
+        return [f["path"] for f in self.files]
 
     @staticmethod
     def dir_of(u):
@@ -304,14 +426,17 @@ class Gen:
             for u in f["units"]:
                 ents.append((f["path"], u["name"], self.dir_of(u), u["name"]))
                 q = u["name"] + "/"
+                for name in u.get("includes", []):
+                    for v, _val in self.include_variant(f["path"], name)[1]:
+                        ents.append((f["path"], q + v, "none", v))
                 for v in u["vars"]:
                     ents.append((f["path"], q + v, "none", v))
                 for t in u["types"]:
                     ents.append((f["path"], q + t["name"], "type", t["name"]))
                     for c in t["comps"]:
                         ents.append((f["path"], q + t["name"] + "/" + c, "none", c))
-                    if t["bound"]:
-                        ents.append((f["path"], q + t["name"] + "/" + t["bound"], "none", t["bound"]))
+                    for b in t["binds"] + t["generics"]:
+                        ents.append((f["path"], q + t["name"] + "/" + b["name"], "none", b["name"]))
                 for g in u["ifaces"]:
                     ents.append((f["path"], q + g["name"], "interface", g["name"]))
                 for p in u["procs"]:
@@ -348,9 +473,75 @@ class Gen:
         for f in self.files:
             bases.setdefault(os.path.basename(f["path"]), []).append(f["path"])
         same_base = {b: v for b, v in bases.items() if len(v) > 1}
+        # derived types: who extends whom, by (lower-cased) name as FORD resolves `extends(..)`
+        children: dict[str, list] = {}
+        for f in self.files:
+            for u in f["units"]:
+                for t in u["types"]:
+                    if t["extends"]:
+                        children.setdefault(t["extends"].lower(), []).append(t["name"].lower())
+
+        def subtree(n, seen):
+            if n in seen:
+                return seen
+            seen.add(n)
+            for c in children.get(n, []):
+                subtree(c, seen)
+            return seen
+
+        names = {t["name"].lower() for f in self.files for u in f["units"] for t in u["types"]}
+        # types that have - themselves or among their descendants - a type with two or more derived types
+        multi_child = sorted(n for n in names if any(len(children.get(d, [])) >= 2 for d in subtree(n, set())))
+        includes = []
+        for f in self.files:
+            for u in f["units"]:
+                for name in u.get("includes", []):
+                    own = (os.path.dirname(f["path"]), name) in self.own_inc
+                    includes.append({"file": f["path"], "unit": u["name"], "name": name, "own_has": own,
+                                     "holders": [d for d in self.inc_dirs if d in self.inc_files[name]]})
+        # generic bindings that two or more types inherit without overriding them (each inheriting type gets a
+        # copy).  `extends(name)` is resolved by name: every other type of that name counts as a possible parent.
+        tnodes = [t for f in self.files for u in f["units"] for t in u["types"]]
+        by_name: dict[str, list] = {}
+        for k, t in enumerate(tnodes):
+            by_name.setdefault(t["name"].lower(), []).append(k)
+        kids: dict[int, list] = {}
+        for k, t in enumerate(tnodes):
+            if t["extends"]:
+                for pk in by_name.get(t["extends"].lower(), []):
+                    if pk != k:
+                        kids.setdefault(pk, []).append(k)
+        declared = [{b["name"].lower() for b in t["binds"] + t["generics"]} for t in tnodes]
+
+        def inheritors(k, g, seen):
+            n = 0
+            for c in kids.get(k, []):
+                if c in seen or g in declared[c]:
+                    continue
+                seen.add(c)
+                n += 1 + inheritors(c, g, seen)
+            return n
+
+        generic_copies = sorted({g["name"].lower() for k, t in enumerate(tnodes) for g in t["generics"]
+                                 if inheritors(k, g["name"].lower(), {k}) >= 2})
+        inherit = sum(1 for f in self.files for u in f["units"] for t in u["types"]
+                      if t["extends"] and t["extends"].lower() in names)
         return {"collide": collide, "multi_use": multi, "same_base": same_base, "nfiles": len(self.files),
+                "multi_child_types": multi_child, "includes": includes, "inc_dirs": list(self.inc_dirs),
+                "derived_types": inherit, "generic_copies": generic_copies,
                 "collide_topo": sorted(k for k in collide if k.split(":")[0] in ("type", "module")),
                 "case_collide": case_collide}
+
+    def type_decls(self):
+        """(file, module/type) -> declared components and bindings, in source order, with `private`"""
+        out = {}
+        for f in self.files:
+            for u in f["units"]:
+                for t in u["types"]:
+                    out[(f["path"], u["name"] + "/" + t["name"])] = {
+                        "comps": [(c, c in t["priv_comps"]) for c in t["comps"]],
+                        "binds": [(b["name"], b["private"]) for b in t["binds"]] + [(g["name"], False) for g in t["generics"]]}
+        return out
 
     def model_records(self, uid_of):
         """Fields for `c12.site` (files in the order of self.files; the caller permutes)."""
@@ -384,8 +575,9 @@ SHIM = r'''
 import json as _json, os as _os, atexit as _atexit
 import ford.fortran_project as _fp
 import ford.sourceform as _sf
-_TR = {"order": [], "requests": [], "lists": {}, "forced": %(forced)r}
+_TR = {"order": [], "requests": [], "lists": {}, "forced": %(forced)r, "readers": [], "types": []}
 _SRC = %(srcroot)r
+_ROOT = _os.path.dirname(_SRC)
 _orig_faf = _fp.find_all_files
 def _rel(p):
     try:
@@ -423,7 +615,9 @@ def _gn(self, item):
     new = item not in self._items
     r = _orig_gn(self, item)
     if new:
-        _TR["requests"].append([id(item), str(item.get_dir() or "none"), item.name, r, _file(item), _qual(item)])
+        par = getattr(item, "parent", None)
+        _TR["requests"].append([id(item), str(item.get_dir() or "none"), item.name, r, _file(item), _qual(item),
+                                _qual(par) if par is not None and not isinstance(par, str) else ""])
     return r
 _sf.NameSelector.get_name = _gn
 _orig_ff = _fp.Project._fortran_file
@@ -440,6 +634,27 @@ def _corr(self):
     _TR["lists"]["allfiles"] = [[_file(x), "", "sourcefile"] for x in self.allfiles]
     return r
 _fp.Project.correlate = _corr
+# every file a FortranReader is opened on (source files and the files their `include` lines resolve to)
+import ford.reader as _rd
+_orig_ri = _rd.FortranReader.__init__
+def _ri(self, filename, *a, **k):
+    try:
+        _TR["readers"].append(_os.path.relpath(str(filename), _ROOT))
+    except Exception:
+        _TR["readers"].append(str(filename))
+    return _orig_ri(self, filename, *a, **k)
+_rd.FortranReader.__init__ = _ri
+# what a derived type shows after correlate: components and type-bound procedures, in list order
+_orig_tc = _sf.FortranType.correlate
+def _tc(self, project):
+    r = _orig_tc(self, project)
+    ext = self.extends
+    _TR["types"].append({"file": _file(self), "qual": _qual(self),
+                         "extends": None if not ext else (str(ext) if isinstance(ext, str) else [_file(ext), _qual(ext)]),
+                         "bound": [str(b.name) for b in self.boundprocs],
+                         "vars": [str(v.name) for v in self.variables]})
+    return r
+_sf.FortranType.correlate = _tc
 if %(workaround)r:
     # keep the open project file out of the settings object (see finding C12-parallel-graph-dir-crash),
     # so that the process_map branch of output_graphs can be exercised at all
@@ -470,6 +685,52 @@ def junk_tree(doc: Path, rng: random.Random, as_file: bool):
         p.write_text(f"stale {rng.random()}\n")
 
 
+def run_ford(pf, hashseed=None, extra_args=(), shim=None):
+    """`python -m ford <project file>` in a fresh interpreter, exactly as `e2e.run_subprocess` starts it, but in its
+    own process group and with a watchdog: a run that does not come back is killed with its worker processes and
+    started once more.  (Seen under heavy machine load on the unchanged tree: with `parallel > 0` the executor behind
+    `process_map` is forked while other threads hold locks; a worker then waits for ever on an inherited lock and the
+    parent for ever on the worker.)"""
+    import signal
+    import sys as _sys
+
+    env = dict(os.environ)
+    env["PATH"] = "/venv/bin:" + env.get("PATH", "")
+    env["FORD_DEBUGGING"] = "1"
+    env["PYTHONPATH"] = str(common.REPO)
+    if hashseed is not None:
+        env["PYTHONHASHSEED"] = str(hashseed)
+    code = (
+        "import sys; sys.path.insert(0, %r)\n" % str(common.REPO)
+        + "import ford, pathlib\n"
+        + "assert pathlib.Path(ford.__file__).resolve().is_relative_to(%r), ford.__file__\n" % str(common.REPO)
+        + (shim or "")
+        + "\nsys.argv = ['ford'] + %r\n" % ([str(pf)] + list(extra_args))
+        + "ford.run()\n"
+    )
+    last = ""
+    for attempt, limit in enumerate((RUN_TIMEOUT_S, 3 * RUN_TIMEOUT_S)):
+        proc = subprocess.Popen([_sys.executable, "-c", code], cwd=Path(pf).parent, env=env, stdout=subprocess.PIPE,
+                                stderr=subprocess.STDOUT, text=True, start_new_session=True)
+        try:
+            out, _ = proc.communicate(timeout=limit)
+            return proc.returncode, out
+        except subprocess.TimeoutExpired:
+            try:
+                os.killpg(proc.pid, signal.SIGKILL)
+            except ProcessLookupError:
+                pass
+            try:
+                out, _ = proc.communicate(timeout=20)
+            except Exception:
+                out = ""
+            last = (out or "")[-1200:] + f"\nTIMEOUT: no result after {limit} s (attempt {attempt + 1})"
+    return -9, last
+
+
+RUN_TIMEOUT_S = 100
+
+
 def one_run(job):
     """Executed in a worker thread: run ford once, return digest + trace."""
     (root, files, options, run) = job
@@ -489,13 +750,13 @@ def one_run(job):
         junk_tree(doc, rng, True)
     elif run["stale"] == "same":
         # an earlier run of the same project (other hash seed, natural order) left its output
-        rc0, log_pre = e2e.run_subprocess(pf, hashseed=run["hashseed"] + 17 if isinstance(run["hashseed"], int) else 5)
+        rc0, log_pre = run_ford(pf, hashseed=run["hashseed"] + 17 if isinstance(run["hashseed"], int) else 5)
         (doc / "leftover_marker.html").write_text("left by the earlier run\n") if doc.is_dir() else None
     tracefile = d / "trace.json"
     shim = SHIM % {"forced": run["order"], "srcroot": str(d / "src"), "tracefile": str(tracefile),
                    "workaround": bool(run.get("workaround"))}
     extra = []
-    rc, log = e2e.run_subprocess(pf, hashseed=run["hashseed"], extra_args=extra, shim=shim)
+    rc, log = run_ford(pf, hashseed=run["hashseed"], extra_args=extra, shim=shim)
     res = {"id": rid, "rc": rc, "log": (log_pre + log)[-1500:], "wall": time.time() - t0}
     res["tree"] = e2e.tree_digest(doc) if doc.is_dir() else {}
     try:
@@ -666,14 +927,22 @@ def page_of(qual_entry, trace_by_q):
     return trace_by_q.get(tuple(qual_entry))
 
 
+def assignment(run):
+    """identifier assignment of a run: (file, qualified name, directory, identifier, qualified name of the parent,
+    lower-cased name); a copy of an inherited generic binding keeps the qualified name of the original but has the
+    inheriting type as parent"""
+    return sorted((r[4], r[5], r[1], r[3], r[6] if len(r) > 6 else "", r[2].lower())
+                  for r in (run["trace"] or {}).get("requests", []))
+
+
 def classify(feat, options, base, other, diff_files, same_order: bool):
     """Return (finding id | None, explanation).  `base`/`other` are run results."""
     search_on = options.get("search") == "true"
     only_search = set(diff_files) <= {"search/search_database.json"}
     nograph = lambda t: {k for k in t if not k.startswith("graphs/")}  # graph files exist only for entities that have one
     paths_equal = nograph(base["tree"]) == nograph(other["tree"])
-    def assignment(run):
-        return sorted((r[4], r[5], r[1], r[3]) for r in (run["trace"] or {}).get("requests", []))
+    def is_generic_copy(m):
+        return m[2] == "none" and m[5] in feat.get("generic_copies", []) and m[4] != "/".join(m[1].split("/")[:-1])
 
     if feat.get("case_collide"):
         # two entities share one identifier (names differing only in case, the C10 defect): they compete for
@@ -681,11 +950,17 @@ def classify(feat, options, base, other, diff_files, same_order: bool):
         if paths_equal:
             return F_CASE, "identifier shared by " + ", ".join(feat["case_collide"][:3])
         return None, "set of output files differs"
+    moved = set(assignment(base)) ^ set(assignment(other))
+    if moved and paths_equal and same_order and options.get("graph") == "true" and feat.get("generic_copies") \
+            and all(is_generic_copy(m) or (feat.get("collide_topo") and m[2] in ("type", "module")) for m in moved) \
+            and any(is_generic_copy(m) for m in moved):
+        # the copies of one inherited generic binding (one per inheriting type) swap their numbers: none of them was
+        # asked for its identifier before GraphManager.graph_all sorts the identity-hashed set they are in
+        return F_GENCOPY, "generic bindings inherited by two or more types: " + ", ".join(feat["generic_copies"][:4])
     if feat["collide"] and assignment(base) != assignment(other):
         # first-come numbering: contents may move between foo.html and foo~2.html, but the
         # *set* of output files (URLs) must not change
         if paths_equal:
-            moved = set(assignment(base)) ^ set(assignment(other))
             if same_order and feat.get("collide_topo") and all(m[2] in ("type", "module") for m in moved):
                 # same parse order, yet equally named types / (sub)modules swap their numbers: their identifiers
                 # are first requested by the comparisons inside toposort's sorted() over an identity-hashed set
@@ -712,7 +987,18 @@ def classify(feat, options, base, other, diff_files, same_order: bool):
     if not same_order and search_on and feat["nfiles"] > 1:
         allowed.add("search/search_database.json")
         reasons.append(F_SEARCH)
+    inhby = set()
+    if feat.get("multi_child_types") and options.get("graph") == "true":
+        # the "inherited by" graph of a type whose descendants fan out: its page and its saved graph files
+        for r in (base["trace"] or {}).get("requests", []):
+            if r[1] == "type" and r[2].lower() in feat["multi_child_types"]:
+                inhby |= {f"type/{r[3]}.html", f"graphs/type~~{r[3]}~~InheritedByGraph.svg",
+                          f"graphs/type~~{r[3]}~~InheritedByGraph.gv"}
+        allowed |= inhby
+        reasons.append(F_INHBY)
     if set(diff_files) <= allowed:
+        if inhby and set(diff_files) & inhby and not (F_USES in reasons and set(diff_files) <= allowed - inhby):
+            return F_INHBY, "types with two or more derived types below them: " + ", ".join(feat["multi_child_types"][:4])
         if reasons == [F_SEARCH] or (only_search and F_SEARCH in reasons and not same_order
                                      and base.get("search_urls") != other.get("search_urls")
                                      and sorted(base.get("search_urls") or []) == sorted(other.get("search_urls") or [])):
@@ -796,13 +1082,16 @@ def run(tier: str, seed: int, replay: str | None = None) -> int:
             clean = pi % 4 in (0, 1)          # globally unique names, unique basenames
             multi = pi % 4 in (1, 2)          # units with two or more USEs
             nfiles = rng.choice([2, 3, 3, 4]) if tier == "quick" else rng.choice([2, 3, 4, 5])
-            g = Gen(random.Random(rng.randint(0, 10 ** 9)), clean, nfiles, multi, case_variants=(pi % 8 == 7))
+            g = Gen(random.Random(rng.randint(0, 10 ** 9)), clean, nfiles, multi, case_variants=(pi % 8 == 7),
+                    includes=(pi % 3 == 0))
             options = {"graph": "true" if pi % 3 != 2 else "false",
                        "search": "true" if (pi % 3 == 1) else "false",
                        "incl_src": "true" if pi % 5 != 4 else "false"}
             if options["graph"] == "true" and pi % 2 == 1 or pi % 6 == 0:
                 options["graph"] = "true"
                 options["graph_dir"] = "./doc/graphs"
+            if g.inc_dirs:
+                options["include"] = ["./" + d for d in g.inc_dirs]
             runs = plan_runs(rng, g, tier, options)
             proj = {"index": pi, "gen": g, "options": options, "runs": runs, "files": g.sources(),
                     "features": g.features(), "root": str(scratch / f"p{pi}")}
@@ -840,6 +1129,8 @@ def run(tier: str, seed: int, replay: str | None = None) -> int:
         samples = []
         number_reqs, number_exp, number_ctx = [], [], []
         site_reqs, site_ctx = [], []
+        inc_reqs, inc_ctx = [], []
+        inh_reqs, inh_ctx = [], []
         for proj in projects:
             pi = proj["index"]
             feat = proj["features"]
@@ -853,6 +1144,14 @@ def run(tier: str, seed: int, replay: str | None = None) -> int:
             for c in cls_names:
                 hist["project: " + c] = hist.get("project: " + c, 0) + 1
             hist[f"project: {feat['nfiles']} files"] = hist.get(f"project: {feat['nfiles']} files", 0) + 1
+            for key, on in (("project: include lines with >= 2 holding directories",
+                             any(len(i["holders"]) >= 2 and not i["own_has"] for i in feat.get("includes", []))),
+                            ("project: include file next to the source", any(i["own_has"] for i in feat.get("includes", []))),
+                            ("project: derived types", feat.get("derived_types", 0) > 0),
+                            ("project: type with >= 2 derived types", bool(feat.get("multi_child_types"))),
+                            ("project: generic binding inherited by >= 2 types", bool(feat.get("generic_copies")))):
+                if on:
+                    hist[key] = hist.get(key, 0) + 1
             for key in ("graph", "search", "incl_src"):
                 if proj["options"].get(key) == "true":
                     hist["option: " + key] = hist.get("option: " + key, 0) + 1
@@ -909,11 +1208,11 @@ def run(tier: str, seed: int, replay: str | None = None) -> int:
                 # --- numbering: the real request sequence replayed through the model
                 ids = {}
                 fields = []
-                for (pid, d, n, ident, fpath, q) in tr["requests"]:
+                for (pid, d, n, ident, fpath, q, *_par) in tr["requests"]:
                     u = ids.setdefault(pid, len(ids))
                     fields += [str(u), d, n]
                 e = ["ok"]
-                for (pid, d, n, ident, fpath, q) in tr["requests"]:
+                for (pid, d, n, ident, fpath, q, *_par) in tr["requests"]:
                     e += [str(ids[pid]), ident]
                 number_reqs.append(["c12.number", *fields])
                 number_exp.append(e)
@@ -929,6 +1228,45 @@ def run(tier: str, seed: int, replay: str | None = None) -> int:
                         fields += recs[p]
                     site_reqs.append(["c12.site", *fields])
                     site_ctx.append((proj, r, rr, {v: k for k, v in uid_of.items()}))
+                    # --- include files: one request per `include` line, in parse order
+                    by_file = {}
+                    for inc in feat.get("includes", []):
+                        by_file.setdefault(inc["file"], []).append(inc)
+                    real_inc = [x for x in tr.get("readers", []) if x.endswith(".inc")]
+                    k_inc = 0
+                    for p in tr["order"]:
+                        for inc in by_file.get(p, []):
+                            own = "src/" + os.path.dirname(p) if os.path.dirname(p) else "src"
+                            fields = [own, "1" if inc["own_has"] else "0", str(len(feat["inc_dirs"]))]
+                            for d in feat["inc_dirs"]:
+                                fields += [d, "1" if d in inc["holders"] else "0"]
+                            inc_reqs.append(["c12.include", *fields])
+                            inc_ctx.append((pi, r, inc, real_inc[k_inc] if k_inc < len(real_inc) else None))
+                            k_inc += 1
+                    if k_inc != len(real_inc):
+                        rep.tie_broken(f"e2e/include (project {pi} run {r['id']}): {len(real_inc)} include files were opened, "
+                                       f"the project has {k_inc} include lines", {"stream": "e2e/include", "readers": tr.get("readers")})
+                    # --- derived types: what each type shows, predicted from the declarations along its chain
+                    decls = g.type_decls()
+                    traced = {(t["file"], t["qual"]): t for t in tr.get("types", [])}
+                    for key, t in traced.items():
+                        chain = []
+                        cur = key
+                        while cur is not None and cur in decls and cur not in chain:
+                            chain.append(cur)
+                            ext = traced.get(cur, {}).get("extends")
+                            cur = tuple(ext) if isinstance(ext, list) else None
+                        if key not in decls:
+                            continue
+                        chain.reverse()
+                        for kind, fld, real in (("b", "binds", t["bound"]), ("c", "comps", t["vars"])):
+                            fields = [kind, str(len(chain))]
+                            for lv in chain:
+                                fields.append(str(len(decls[lv][fld])))
+                                for (nm, priv) in decls[lv][fld]:
+                                    fields += [nm, "1" if priv else "0"]
+                            inh_reqs.append(["c12.inherit", *fields])
+                            inh_ctx.append((pi, r, key, kind, real, len(chain)))
             # --- the property oracle: every run against the base run
             if base is None or not base.get("tree"):
                 continue
@@ -950,6 +1288,7 @@ def run(tier: str, seed: int, replay: str | None = None) -> int:
                         "parse_order_base": (base["trace"] or {}).get("order"),
                         "parse_order_other": (rr["trace"] or {}).get("order"),
                         "differing_files": diff[:30], "only_in_one": sorted(set(a) ^ set(b))[:20], "why": why,
+                        "identifiers_assigned_differently": sorted(set(assignment(base)) ^ set(assignment(rr)))[:12],
                         "oracle": "two runs of the same project and options must give byte-identical trees"}
                 if len(samples) < 3:
                     samples.append({k: case[k] for k in ("options", "base_run", "other_run", "differing_files", "why")})
@@ -963,6 +1302,28 @@ def run(tier: str, seed: int, replay: str | None = None) -> int:
                 bad_tr += 1
                 rep.tie_broken(f"correspondence e2e/number: NameSelector trace of project {ctx[0]} run {ctx[1]} "
                                f"is not what the model assigns", {"stream": "e2e/number", "impl": e[:40], "model": g[:40]})
+        got = drv.batch(inc_reqs)
+        for (pi, r, inc, real), g_ in zip(inc_ctx, got):
+            want = (g_[2] + "/" + inc["name"]) if g_[:2] == ["ok", "some"] else None
+            hist["include line: " + ("own directory" if inc["own_has"] else f"{len(inc['holders'])} holding directories")] = \
+                hist.get("include line: " + ("own directory" if inc["own_has"] else f"{len(inc['holders'])} holding directories"), 0) + 1
+            if want != real:
+                bad_tr += 1
+                rep.tie_broken(f"correspondence e2e/include (project {pi} run {r['id']}, hash seed {r['hashseed']}): "
+                               f"`include '{inc['name']}'` in {inc['file']} was read from {real}; the model (own directory, "
+                               f"then the include directories in the order given) says {want}",
+                               {"stream": "e2e/include", "run": r, "include": inc, "impl": real, "model": g_})
+        got = drv.batch(inh_reqs)
+        for (pi, r, key, kind, real, depth), g_ in zip(inh_ctx, got):
+            hist[f"derived type: chain of {min(depth, 4)}{'+' if depth >= 4 else ''}"] = \
+                hist.get(f"derived type: chain of {min(depth, 4)}{'+' if depth >= 4 else ''}", 0) + 1
+            if g_[0] != "ok" or g_[1:] != real:
+                bad_tr += 1
+                what = "type-bound procedures" if kind == "b" else "components"
+                rep.tie_broken(f"correspondence e2e/inherit (project {pi} run {r['id']}, hash seed {r['hashseed']}): "
+                               f"{what} of {key[1]} ({key[0]}) are {real}; the model (inherited ones in the parent's "
+                               f"order, then the own ones) says {g_[1:]}",
+                               {"stream": "e2e/inherit", "run": r, "type": list(key), "impl": real, "model": g_})
         got = drv.batch(site_reqs)
         n_site = 0
         for (proj, r, rr, ent_of), g in zip(site_ctx, got):
@@ -993,7 +1354,7 @@ def run(tier: str, seed: int, replay: str | None = None) -> int:
                     problems.append(f"project.{name}: model {lists.get(name)} real {want}")
             if proj["options"].get("search") == "true" and rr.get("search_urls") is not None:
                 url_of = {}
-                for (pid, d, n, ident, fpath, q) in tr["requests"]:
+                for (pid, d, n, ident, fpath, q, *_par) in tr["requests"]:
                     url_of[(fpath, q, d)] = f"{d}/{ident}.html"
                 model_urls = ["index.html"]
                 incl = proj["options"].get("incl_src") == "true"
@@ -1024,12 +1385,15 @@ def run(tier: str, seed: int, replay: str | None = None) -> int:
              "it completed with a NameSelector/parse-order trace; distinct by digest of (sources, options, parse order, "
              "hash seed, parallel, prior state of the output directory)",
         samples=samples,
-        traces_validated_against_impl=ev_s + ev_n + ev_f + len(number_reqs) + n_site,
+        traces_validated_against_impl=ev_s + ev_n + ev_f + len(number_reqs) + n_site + len(inc_reqs) + len(inh_reqs),
+        include_lines_corresponded=len(inc_reqs), derived_type_lists_corresponded=len(inh_reqs),
         correspondence_disagreements=bad_s + bad_n + bad_f + bad_tr,
         e2e_runs=n_runs, e2e_pairs_compared=n_pairs, e2e_pairs_differing=n_diff_pairs, e2e_wall_s=round(e2e_wall, 1),
-        variant_decided={"file iteration": variant[1], "uses iteration": variant[2], "NameSelector counter key": variant[3]},
+        variant_decided={"file iteration": variant[1], "uses iteration": variant[2], "NameSelector counter key": variant[3],
+                         "include directories": variant[4], "inherited entities": variant[5]},
         generated_tables={k: tables.get(k) for k in ("fileIterSorted", "countKeyLower", "usesIterSorted", "writeoutSteps", "pageListOrder",
-                                                      "fortranFileOrder", "unitChainOrder")},
+                                                      "fortranFileOrder", "unitChainOrder", "incDirsOrdered", "incDirsKept",
+                                                      "inheritedIterOrdered", "inheritedIterables", "hashIterSites")},
         input_histogram=dict(sorted(hist.items())),
     )
     rep.assumptions += [
